@@ -31,4 +31,4 @@ Proof. vm_compute. split; reflexivity. Qed.
 
 (* axioms the property theorems of this file depend on (one traversal for all of them) *)
 Definition C05_theorems := (@C05_scanner_general, @C05).
-Print Assumptions C05_theorems.
+Redirect "assumptions/C05" Print Assumptions C05_theorems.
